@@ -21,9 +21,10 @@ RULE = (
     "still resolves; a third of the checkpoints are also read from a copy in another folder with the original removed; every eighth "
     "case runs under the RL scheduler (no folder: labels and table only, incl. the bootstrap sampler it appends). Non-trivial = a class present in the history is no longer in the scheduler at checkpoint time; "
     "distinct by operation sequence."
+    ' Line-ups include user classes derived from a built-in (next to the parent), a class with a `name` attribute naming another class, a non-ASCII class name; operations include replacements before the first batch, retiring the highest id then adding a new class, extending a user scheduler in place and announcing it again; folders with a stale temporary params file; sampler objects shared with a second calibrator of the reverse order; str and Path folder arguments.'
 )
 ASSUMPTIONS = ["sampler classes are identified by their class name, as the library does"]
-REQUIRED_COUNTERS = {"user_subclasses_of_a_built_in": 8, "user_classes_with_a_name_attribute": 3, "folder_holds_a_stale_temporary_params_file": 8, "sampler_objects_shared_with_a_calibrator_of_another_order": 4, "replacements_before_the_first_batch": 6, "highest_id_retired_then_new_class_added": 4, "scheduler_extended_in_place_and_announced_again": 4, "folder_holds_no_batch_checkpoint_of_another_lineup": 5, "failed_batches_then_continued": 10, "rl_scheduler_cases": 5, "moved_checkpoints": 10, "folder_reused_by_other_run": 20, "tables_checked": 80, "rows_attributed": 150, "helper_calls": 40, "restores": 40, "dropped_class_checkpoints": 10,
+REQUIRED_COUNTERS = {"user_subclasses_of_a_built_in": 8, "user_classes_with_a_name_attribute": 2, "folder_holds_a_stale_temporary_params_file": 8, "sampler_objects_shared_with_a_calibrator_of_another_order": 2, "replacements_before_the_first_batch": 6, "highest_id_retired_then_new_class_added": 4, "scheduler_extended_in_place_and_announced_again": 4, "folder_holds_no_batch_checkpoint_of_another_lineup": 5, "failed_batches_then_continued": 10, "rl_scheduler_cases": 5, "moved_checkpoints": 10, "folder_reused_by_other_run": 20, "tables_checked": 80, "rows_attributed": 150, "helper_calls": 40, "restores": 40, "dropped_class_checkpoints": 10,
                      "user_defined_classes": 5, "set_scheduler_ops": 5, "old_format_fixture": 1}
 SHARDS = {"quick": 16, "thorough": 16}
 SHARD_WATCHDOG = {"quick": 1500, "thorough": 10800}
@@ -126,7 +127,7 @@ def run_case(desc, ctx):
             if u < 0.3:
                 # user classes: derived from BaseSampler, derived from a built-in (next to the parent / a sibling), carrying a `name`
                 # attribute that equals another class' name, with a non-ASCII class name
-                cls = [U.CornerSampler, U.CornerSampler, U.MidSampler, U.WideHalton, U.WideHalton, U.OtherHalton, U.NamedSampler, U.ÉchantillonneurLocal][int(rng.integers(0, 8))]
+                cls = [U.CornerSampler, U.CornerSampler, U.MidSampler, U.WideHalton, U.WideHalton, U.OtherHalton, U.NamedSampler, U.NamedSampler, U.ÉchantillonneurLocal][int(rng.integers(0, 9))]
                 kw = {"name": str(rng.choice(["HaltonSampler", "local search", "RandomUniformSampler"]))} if cls is U.NamedSampler else {}
                 objs.append(cls(batch_size=int(rng.integers(1, 3)), random_state=int(rng.integers(2**31)), **kw))
                 cnt("user_defined_classes")
